@@ -54,6 +54,8 @@ pub assume_specification [char::to_ascii_lowercase] (c: &char) -> (r: char) ensu
 pub uninterp spec fn utf8_len(s: Seq<char>) -> nat;
 pub assume_specification [String::len] (s: &String) -> (r: usize) ensures r == utf8_len(s@);
 
+pub assume_specification [std::string::String::with_capacity] (n: usize) -> (r: String) ensures r@ == Seq::<char>::empty();
+
 // ---- string wrappers (R3): body IS the original call; only the contract is assumed ----
 #[verifier::external_body]
 pub fn x_make_ascii_lowercase(s: &mut str)
